@@ -3,7 +3,7 @@ import traceback
 from usim import Concurrent
 from usim._core.loop import Interrupt, ActivityLeak
 from usim._primitives.task import CancelTask, TaskCancelled, TaskClosed
-from usim._primitives.context import CancelScope
+from usim._primitives.context import CancelScope, ScopeClosed
 
 
 def exc_key(e):
@@ -86,6 +86,8 @@ def kernel_health(ctx, allow_leak=False, ignore=None):
         if isinstance(x, Interrupt):
             out.append('%s observed internal signal %r at %r' % (act, x, pc))
             continue
+        if isinstance(x, ScopeClosed):
+            continue      # documented: spawning into a scope that has ended
         if isinstance(x, (AssertionError, AttributeError, RuntimeError)) and from_usim_frame(x):
             out.append('%s observed internal error %s at %r' % (act, describe(x), pc))
     return out
